@@ -40,6 +40,10 @@ def apply(name):
         from streamz.dataframe import aggregations as ag
         mutate(ag.Count, "on_new", "result = acc + new.count()", "result = acc + new.size")
         return
+    if name == "kafka_commit_offset":
+        from streamz import sources as so
+        mutate(so.FromKafkaBatched, "poll_kafka", "_tp = ck.TopicPartition(topic, part_no, offset + 1)", "_tp = ck.TopicPartition(topic, part_no, offset)")
+        return
     if name == "corrupt_log":
         return
     table[name]()
